@@ -87,3 +87,25 @@ package rag
 //@   loop 0:
 //@     invariant len(adjusted) <= $i
 //@     invariant forall k int :: {adjusted[k]} 0 <= k && k < len(adjusted) ==> adjusted[k].Position > 0
+
+// ---- C14: filtering returns exactly the chunks satisfying the predicate, in order ----
+// number of chunks among the first n that satisfy the predicate (fv_predicate is the function-valued parameter)
+//@ spec rec func predCount(cs []*Chunk, n int) int = n <= 0 ? 0 : predCount(cs, n - 1) + (fv_predicate(cs[n-1]) ? 1 : 0)
+
+//@ func (*ChunkCollection) Filter results (res)
+//@   property C14
+//@   flags readonly
+//@   ensures count: len(res.Chunks) == predCount(cc.Chunks, len(cc.Chunks))
+//@   ensures exact_in_order: forall j int :: {cc.Chunks[j]} 0 <= j && j < len(cc.Chunks) && fv_predicate(cc.Chunks[j]) ==> res.Chunks[predCount(cc.Chunks, j)] == cc.Chunks[j]
+//@   loop 0:
+//@     invariant len(filtered) == predCount(cc.Chunks, $i) && len(filtered) <= $i
+//@     invariant forall j int :: {cc.Chunks[j]} 0 <= j && j < $i && fv_predicate(cc.Chunks[j]) ==> predCount(cc.Chunks, j) < len(filtered) && filtered[predCount(cc.Chunks, j)] == cc.Chunks[j]
+
+// Batches partition [0, n) in order; one callback per batch; each batch reports its own extent.
+//@ func (*BatchExporter) Export results (err)
+//@   property C14, C02
+//@   flags readonly
+//@   ensures rejects_bad_batch_size: be.batchSize <= 0 ==> err
+//@   loop 0:
+//@     invariant be.batchSize >= 1 && 0 <= i && (i <= len(chunks) || i - be.batchSize < len(chunks)) && mod(i, be.batchSize) == 0
+//@     decreases len(chunks) - i + be.batchSize
